@@ -633,6 +633,8 @@ func (r *Request) Send() (*Response, error) {
 // Reset clears the Request object, returning it to its default state.
 // Used by ReleaseRequest to recycle the object.
 func (r *Request) Reset() {
+	// a pooled Request must not stay tied to the client that used it last
+	r.client = nil
 	r.url = ""
 	r.method = fiber.MethodGet
 	r.userAgent = ""
